@@ -311,3 +311,678 @@ Proof.
   destruct (read_full_loop_spec (S n) n false s [] Hwf ltac:(lia)) as (ps & H).
   exists ps. exact H.
 Qed.
+
+(** * The counter limit *)
+
+Lemma ctr_limit_gt1 : (1 < ctr_limit)%N.
+Proof. reflexivity. Qed.
+
+Local Opaque ctr_limit.
+
+Lemma nth_repeat_lt : forall (A : Type) (x d : A) (m n : nat),
+  n < m -> nth n (repeat x m) d = x.
+Proof.
+  intros A x d m; induction m as [|m IH]; intros n Hn; [lia|].
+  destruct n as [|n]; cbn [repeat nth]; [reflexivity|]. apply IH. lia.
+Qed.
+
+(** * stream.Writer *)
+
+Section WriterFacts.
+  Variable cs : nat.
+  Hypothesis cs_pos : 0 < cs.
+  Variable seal : bytes -> bytes -> bytes.
+
+  Lemma mul_cs_ge : forall n, n <= n * cs.
+  Proof using cs_pos. intro n. nia. Qed.
+
+  Lemma seal_full_prefix : forall n ctr T p,
+    n * cs <= length T ->
+    seal_full cs seal n ctr (T ++ p) = seal_full cs seal n ctr T.
+  Proof.
+    intro n; induction n as [|n IH]; intros ctr T p Hn; [reflexivity|].
+    cbn [seal_full]. cbn [Nat.mul] in Hn.
+    rewrite firstn_app_le by lia. rewrite skipn_app_le by lia.
+    rewrite IH; [reflexivity|]. rewrite skipn_length. lia.
+  Qed.
+
+  Lemma seal_full_snoc : forall n ctr X,
+    seal_full cs seal (S n) ctr X =
+    seal_full cs seal n ctr X ++
+      seal (nonce_of (ctr + N.of_nat n) false) (firstn cs (skipn (n * cs) X)).
+  Proof.
+    intro n; induction n as [|n IH]; intros ctr X.
+    - cbn [seal_full Nat.mul skipn app N.of_nat]. rewrite N.add_0_r. apply app_nil_r.
+    - change (seal_full cs seal (S (S n)) ctr X)
+        with (seal (nonce_of ctr false) (firstn cs X) ++ seal_full cs seal (S n) (ctr + 1) (skipn cs X)).
+      rewrite IH. cbn [seal_full Nat.mul]. rewrite skipn_skipn'.
+      replace (ctr + 1 + N.of_nat n)%N with (ctr + N.of_nat (S n))%N by lia.
+      now rewrite app_assoc.
+  Qed.
+
+  (** The writer's decomposition of a plaintext is the spec's. *)
+  Lemma enc_decomp : forall n fuel ctr T,
+    n <= fuel ->
+    n * cs <= length T ->
+    length (skipn (n * cs) T) <= cs ->
+    (0 < n -> skipn (n * cs) T <> []) ->
+    concat (map (fun x => snd x) (enc_chunks_fuel cs seal fuel ctr T)) =
+    seal_full cs seal n ctr T ++ seal (nonce_of (ctr + N.of_nat n) true) (skipn (n * cs) T).
+  Proof.
+    intro n; induction n as [|n IH]; intros fuel ctr T Hf Hn Hb Hne.
+    - cbn [Nat.mul skipn seal_full app N.of_nat] in *. rewrite N.add_0_r.
+      destruct fuel as [|f]; cbn [enc_chunks_fuel].
+      + cbn [map concat snd]. apply app_nil_r.
+      + destruct (Nat.leb_spec (length T) cs); [|lia].
+        cbn [map concat snd]. apply app_nil_r.
+    - destruct fuel as [|f]; [lia|]. cbn [enc_chunks_fuel].
+      assert (Hlen : length (skipn (S n * cs) T) <> 0).
+      { intro E. apply length_zero_nil in E. apply Hne; [lia|exact E]. }
+      rewrite skipn_length in Hlen. cbn [Nat.mul] in *.
+      destruct (Nat.leb_spec (length T) cs) as [Hle|Hgt]; [lia|].
+      cbn [map concat snd seal_full]. rewrite <- app_assoc. f_equal.
+      rewrite (IH f (ctr + 1)%N (skipn cs T)).
+      + rewrite skipn_skipn'.
+        replace (ctr + 1 + N.of_nat n)%N with (ctr + N.of_nat (S n))%N by lia.
+        reflexivity.
+      + lia.
+      + rewrite skipn_length. lia.
+      + rewrite skipn_skipn'. exact Hb.
+      + intros _. rewrite skipn_skipn'. apply Hne. lia.
+  Qed.
+
+  (** Tight size bound of the ciphertext, in chunks. *)
+  Lemma enc_chunks_length : forall fuel ctr p,
+    (forall n q, length (seal n q) = length q + 16) ->
+    length (concat (map (fun x => snd x) (enc_chunks_fuel cs seal fuel ctr p)))
+    <= Nat.max 1 (length p) * ecs cs.
+  Proof using cs_pos.
+    intros fuel ctr p Hsl. unfold ecs, overhead.
+    assert (Hfin : forall ctr' q, length (seal (nonce_of ctr' true) q ++ [])
+                             <= Nat.max 1 (length q) * (cs + 16)).
+    { intros ctr' q. rewrite app_nil_r, Hsl.
+      destruct q as [|x q]; cbn [length]; [lia|]. nia. }
+    revert ctr p; induction fuel as [|f IH]; intros ctr p; cbn [enc_chunks_fuel].
+    - cbn [map concat snd]. apply Hfin.
+    - destruct (Nat.leb_spec (length p) cs) as [Hle|Hgt].
+      + cbn [map concat snd]. apply Hfin.
+      + cbn [map concat snd]. rewrite app_length, Hsl, firstn_length.
+        specialize (IH (ctr + 1)%N (skipn cs p)). rewrite skipn_length in IH.
+        nia.
+  Qed.
+
+  Section Generic.
+    Variable D : Type.
+    Variable dwrite : D -> bytes -> D * bool.
+    Variable dacc : D -> bytes.
+    Variable good : D -> bool.
+    Hypothesis dwrite_ok : forall d p d',
+      dwrite d p = (d', true) -> good d = true -> good d' = true /\ dacc d' = dacc d ++ p.
+    Hypothesis dwrite_fail : forall d p d', dwrite d p = (d', false) -> good d' = false.
+    Variable d0 : bytes.
+
+    (** Invariant of an open writer that has accepted plaintext [T]. *)
+    Definition LInv (T : bytes) (w : wstate) (d : D) : Prop :=
+      w_st w = WOpen /\ good d = true /\
+      exists n,
+        length (w_buf w) <= cs /\
+        length T = n * cs + length (w_buf w) /\
+        w_buf w = skipn (n * cs) T /\
+        dacc d = d0 ++ seal_full cs seal n 0 T /\
+        w_ctr w = N.of_nat n.
+
+    Definition WOpenSt (T : bytes) (w : wstate) (d : D) : Prop :=
+      LInv T w d /\ (T <> [] -> w_buf w <> []).
+
+    Lemma w_loop_spec : forall fuel p w d T,
+      LInv T w d ->
+      (N.of_nat (length (T ++ p)) < ctr_limit)%N ->
+      length p + (if Nat.eqb (length (w_buf w)) cs then 1 else 0) <= fuel ->
+      exists w' d' ok,
+        w_loop cs seal D dwrite fuel w d p = Ok (w', d', ok) /\
+        (ok = true -> LInv (T ++ p) w' d' /\ (p <> [] -> w_buf w' <> [])) /\
+        (ok = false -> w_st w' = WFailed /\ good d' = false).
+    Proof using cs_pos dwrite_ok dwrite_fail.
+      intro fuel; induction fuel as [|f IH]; intros p w d T HI Hlim Hfuel.
+      - destruct p as [|x p0]; [|cbn [length] in Hfuel; lia].
+        exists w, d, true. cbn [w_loop]. rewrite app_nil_r.
+        split; [reflexivity|]. split; [intros _; split; [exact HI|congruence]|discriminate].
+      - destruct p as [|x p0].
+        { exists w, d, true. cbn [w_loop]. rewrite app_nil_r.
+          split; [reflexivity|]. split; [intros _; split; [exact HI|congruence]|discriminate]. }
+        cbn [w_loop]. set (p := x :: p0) in *.
+        destruct HI as (Hst & Hgood & n & Hbl & HTl & Hbuf & Hacc & Hctr).
+        set (free := cs - length (w_buf w)).
+        assert (Hfree : length (w_buf w) + free = cs) by (subst free; lia).
+        rewrite app_length in Hlim.
+        destruct (skipn free p) as [|y r] eqn:Esk.
+        + (* everything fits in the buffer *)
+          apply skipn_nil_iff_len in Esk.
+          rewrite (firstn_all2 p) by lia.
+          eexists _, d, true. split; [reflexivity|]. split; [|discriminate]. intros _. split.
+          * split; [exact Hst|]. split; [exact Hgood|]. exists n. cbn [w_buf w_ctr].
+            rewrite !app_length.
+            split; [lia|]. split; [lia|]. split; [|split; [|exact Hctr]].
+            -- rewrite skipn_app_le by lia. now rewrite <- Hbuf.
+            -- rewrite seal_full_prefix by lia. exact Hacc.
+          * cbn [w_buf]. subst p. intros _ E. apply app_eq_nil in E. destruct E; discriminate.
+        + assert (Hlp : free < length p).
+          { destruct (Nat.lt_ge_cases free (length p)) as [H|H]; [exact H|].
+            rewrite skipn_all2 in Esk by lia. discriminate. }
+          cbn [w_buf w_ctr w_st].
+          assert (Hb1 : length (w_buf w ++ firstn free p) = cs)
+            by (rewrite app_length, firstn_length; lia).
+          rewrite Hb1, Nat.eqb_refl.
+          unfold w_flush. cbn [w_buf w_ctr w_st negb andb]. rewrite Hb1, Nat.eqb_refl.
+          cbn [negb andb].
+          destruct (dwrite d (seal (nonce_of (w_ctr w) false) (w_buf w ++ firstn free p)))
+            as [d' ok] eqn:Edw.
+          pose proof (mul_cs_ge n) as Hnn.
+          rewrite Hctr. destruct (N.eqb_spec (N.of_nat n + 1) ctr_limit) as [E|_]; [lia|].
+          cbn [bind].
+          destruct ok.
+          * set (T2 := T ++ firstn free p).
+            assert (HT2 : T2 ++ (y :: r) = T ++ p).
+            { subst T2. rewrite <- app_assoc, <- Esk, firstn_skipn. reflexivity. }
+            destruct (dwrite_ok _ _ _ Edw Hgood) as [Hg' Ha'].
+            assert (HlT2 : length T2 = cs + n * cs)
+              by (subst T2; rewrite app_length, firstn_length; lia).
+            assert (HI2 : LInv T2 (mkW [] (N.of_nat n + 1) (w_st w)) d').
+            { split; [exact Hst|]. split; [exact Hg'|]. exists (S n).
+              cbn [w_buf w_ctr length Nat.mul].
+              split; [lia|]. split; [lia|]. split; [|split; [|lia]].
+              - symmetry. apply skipn_all2. lia.
+              - rewrite Ha', Hacc, seal_full_snoc, <- app_assoc.
+                subst T2. rewrite seal_full_prefix by lia. rewrite skipn_app_le by lia.
+                rewrite <- Hbuf. rewrite (firstn_all2 (w_buf w ++ firstn free p)) by lia.
+                rewrite N.add_0_l, Hctr. reflexivity. }
+            destruct (IH (y :: r) _ d' T2 HI2) as (w' & d'' & ok' & Hrun & Hok & Hbad).
+            -- rewrite HT2, app_length. exact Hlim.
+            -- cbn [w_buf]. change (length (@nil byte)) with 0.
+               destruct (Nat.eqb_spec 0 cs) as [E0|_]; [lia|].
+               assert (length (y :: r) = length p - free) by (rewrite <- Esk; apply skipn_length).
+               destruct (Nat.eqb_spec (length (w_buf w)) cs); lia.
+            -- exists w', d'', ok'. split; [exact Hrun|]. rewrite <- HT2. split; [|exact Hbad].
+               intros E; destruct (Hok E) as [A B]. split; [exact A|]. intros _. apply B. discriminate.
+          * eexists _, d', false. split; [reflexivity|]. split; [discriminate|]. intros _.
+            cbn [w_st]. split; [reflexivity|]. eapply dwrite_fail; exact Edw.
+    Qed.
+
+    Lemma w_close_spec : forall w d T,
+      WOpenSt T w d ->
+      (N.of_nat (length T) < ctr_limit)%N ->
+      exists w' d' ok,
+        w_close cs seal D dwrite w d = Ok (w', d', ok) /\
+        (ok = true -> good d' = true /\ dacc d' = d0 ++ encrypt_spec cs seal T) /\
+        (ok = false -> good d' = false).
+    Proof using cs_pos dwrite_ok dwrite_fail.
+      intros w d T [HI Hne] Hlim.
+      destruct HI as (Hst & Hgood & n & Hbl & HTl & Hbuf & Hacc & Hctr).
+      unfold w_close. rewrite Hst. unfold w_flush. cbn [negb andb].
+      destruct (dwrite d (seal (nonce_of (w_ctr w) true) (w_buf w))) as [d' ok] eqn:Edw.
+      pose proof (mul_cs_ge n) as Hnn. pose proof ctr_limit_gt1 as Hl1.
+      assert (Hn1 : (N.of_nat n + 1 < ctr_limit)%N).
+      { destruct (w_buf w) as [|b bf] eqn:Eb.
+        - destruct T as [|t T']; [cbn [length] in HTl; lia|].
+          exfalso. apply Hne; [discriminate|reflexivity].
+        - cbn [length] in HTl. lia. }
+      rewrite Hctr. destruct (N.eqb_spec (N.of_nat n + 1) ctr_limit) as [E|_]; [lia|].
+      cbn [bind w_buf w_ctr].
+      eexists _, d', ok. split; [reflexivity|]. split.
+      - intros ->. destruct (dwrite_ok _ _ _ Edw Hgood) as [Hg' Ha']. split; [exact Hg'|].
+        rewrite Ha', Hacc, <- app_assoc. f_equal.
+        unfold encrypt_spec, enc_chunks.
+        rewrite (enc_decomp n (length T) 0 T).
+        + rewrite N.add_0_l, Hctr, <- Hbuf. reflexivity.
+        + lia.
+        + lia.
+        + rewrite <- Hbuf. exact Hbl.
+        + intros Hn0. rewrite <- Hbuf. apply Hne. destruct T; [cbn [length] in HTl; lia|discriminate].
+      - intros ->. eapply dwrite_fail; exact Edw.
+    Qed.
+
+    Lemma w_write_spec : forall w d T p,
+      WOpenSt T w d ->
+      (N.of_nat (length (T ++ p)) < ctr_limit)%N ->
+      exists w' d' r,
+        w_write cs seal D dwrite w d p = Ok (w', d', r) /\
+        ((r = Some (length p) /\ WOpenSt (T ++ p) w' d') \/
+         (r = None /\ w_st w' = WFailed /\ good d' = false)).
+    Proof using cs_pos dwrite_ok dwrite_fail.
+      intros w d T p [HI Hne] Hlim.
+      assert (Hst : w_st w = WOpen) by (destruct HI as (Hst & _); exact Hst).
+      unfold w_write. rewrite Hst.
+      destruct p as [|x p0].
+      - exists w, d, (Some 0). split; [reflexivity|]. left. split; [reflexivity|].
+        rewrite app_nil_r. split; assumption.
+      - set (p := x :: p0) in *.
+        destruct (w_loop_spec (S (length p)) p w d T HI Hlim) as (w' & d' & ok & Hrun & Hok & Hbad).
+        { destruct (Nat.eqb (length (w_buf w)) cs); lia. }
+        rewrite Hrun. cbn [bind]. eexists w', d', _. split; [reflexivity|].
+        destruct ok.
+        + left. split; [reflexivity|]. destruct (Hok eq_refl) as [A B]. split; [exact A|].
+          intros _. apply B. subst p; discriminate.
+        + right. destruct (Hbad eq_refl) as [A B]. repeat split; assumption.
+    Qed.
+
+    Lemma w_run_failed : forall ws w d acc,
+      w_st w <> WOpen ->
+      w_run cs seal D dwrite w d ws acc = Ok (w, d, acc ++ repeat false (S (length ws))).
+    Proof.
+      intro ws; induction ws as [|p rest IH]; intros w d acc Hst.
+      - cbn [w_run length repeat]. unfold w_close.
+        destruct (w_st w); [congruence|reflexivity|reflexivity].
+      - cbn [w_run]. unfold w_write.
+        destruct (w_st w) eqn:E; [congruence| |]; cbn [bind];
+          (rewrite IH by (rewrite E; discriminate));
+          cbn [length]; cbn [repeat]; rewrite <- app_assoc; reflexivity.
+    Qed.
+
+    Lemma w_run_spec : forall ws w d T acc,
+      WOpenSt T w d ->
+      (N.of_nat (length (T ++ concat ws)) < ctr_limit)%N ->
+      exists w' d' i j,
+        w_run cs seal D dwrite w d ws acc = Ok (w', d', acc ++ repeat true i ++ repeat false j) /\
+        i + j = S (length ws) /\
+        (j = 0 -> good d' = true /\ dacc d' = d0 ++ encrypt_spec cs seal (T ++ concat ws)) /\
+        (0 < j -> good d' = false).
+    Proof using cs_pos dwrite_ok dwrite_fail.
+      intro ws; induction ws as [|p rest IH]; intros w d T acc HO Hlim.
+      - cbn [concat] in *. rewrite app_nil_r in *. cbn [w_run].
+        destruct (w_close_spec w d T HO Hlim) as (w' & d' & ok & Hrun & Hok & Hbad).
+        rewrite Hrun. cbn [bind]. destruct ok.
+        + exists w', d', 1, 0. cbn [repeat length]. rewrite app_nil_r.
+          split; [reflexivity|]. split; [reflexivity|]. split; [intros _; now apply Hok|lia].
+        + exists w', d', 0, 1. cbn [repeat length app].
+          split; [reflexivity|]. split; [reflexivity|]. split; [lia|intros _; now apply Hbad].
+      - cbn [concat] in Hlim. cbn [w_run].
+        destruct (w_write_spec w d T p HO) as (w' & d' & r & Hrun & Hcase).
+        { rewrite !app_length in *. lia. }
+        rewrite Hrun. cbn [bind].
+        destruct Hcase as [[-> HO'] | (-> & Hst' & Hg')].
+        + destruct (IH w' d' (T ++ p) (acc ++ [true]) HO') as (w'' & d'' & i & j & Hr & Hij & H0 & H1).
+          { rewrite <- app_assoc. exact Hlim. }
+          exists w'', d'', (S i), j. rewrite Hr. cbn [repeat length concat].
+          rewrite <- !app_assoc. cbn [app].
+          split; [reflexivity|]. split; [lia|]. rewrite app_assoc. split; assumption.
+        + rewrite w_run_failed by (rewrite Hst'; discriminate).
+          exists w', d', 0, (S (S (length rest))). cbn [repeat length app].
+          rewrite <- app_assoc. cbn [app].
+          split; [reflexivity|]. split; [reflexivity|]. split; [lia|intros _; exact Hg'].
+    Qed.
+
+    Lemma w_writes_spec : forall ws w d T w' d',
+      WOpenSt T w d ->
+      (N.of_nat (length (T ++ concat ws)) < ctr_limit)%N ->
+      w_writes cs seal D dwrite w d ws = Ok (w', d', true) ->
+      WOpenSt (T ++ concat ws) w' d'.
+    Proof using cs_pos dwrite_ok dwrite_fail.
+      intro ws; induction ws as [|p rest IH]; intros w d T w' d' HO Hlim H.
+      - cbn [w_writes concat] in *. rewrite app_nil_r. inversion H; subst. exact HO.
+      - cbn [concat] in *. cbn [w_writes] in H.
+        destruct (w_write_spec w d T p HO) as (w1 & d1 & r & Hrun & Hcase).
+        { rewrite !app_length in *. lia. }
+        rewrite Hrun in H. cbn [bind] in H.
+        destruct Hcase as [[-> HO'] | (-> & _)]; [|discriminate].
+        rewrite app_assoc. apply (IH w1 d1); [exact HO'| |exact H].
+        rewrite <- app_assoc. exact Hlim.
+    Qed.
+
+    Lemma w_init_open : forall d, good d = true -> dacc d = d0 -> WOpenSt [] w_init d.
+    Proof using dwrite.
+      clear cs_pos dwrite_ok dwrite_fail.
+      intros d Hg Hd. split; [|intro E; now elim E].
+      split; [reflexivity|]. split; [exact Hg|]. exists 0.
+      cbn [w_init w_buf w_ctr length Nat.mul skipn seal_full N.of_nat]. rewrite app_nil_r.
+      repeat split; try lia. exact Hd.
+    Qed.
+  End Generic.
+
+  (** ** All-accepting destination *)
+
+  Definition bwrite (d p : bytes) : bytes * bool := (d ++ p, true).
+
+  Lemma bwrite_ok : forall d p d',
+    bwrite d p = (d', true) -> true = true -> true = true /\ d' = d ++ p.
+  Proof. intros d p d' H _. inversion H. split; reflexivity. Qed.
+
+  Lemma bwrite_fail : forall d p d', bwrite d p = (d', false) -> true = false.
+  Proof. intros d p d' H. inversion H. Qed.
+
+  Lemma write_seg_indep :
+    forall (ws : list bytes) (d0 : bytes),
+      (N.of_nat (length (concat ws)) < ctr_limit)%N ->
+      exists w,
+        w_run cs seal bytes (fun d p => (d ++ p, true)) w_init d0 ws []
+        = Ok (w, d0 ++ encrypt_spec cs seal (concat ws), repeat true (S (length ws))).
+  Proof using cs_pos.
+    intros ws d0 Hlim.
+    destruct (w_run_spec bytes bwrite (fun d => d) (fun _ => true) bwrite_ok bwrite_fail d0
+                ws w_init d0 [] [])
+      as (w' & d' & i & j & Hr & Hij & H0 & H1).
+    - apply (w_init_open bytes bwrite (fun d => d) (fun _ => true) d0 d0); reflexivity.
+    - exact Hlim.
+    - destruct j as [|j]; [|specialize (H1 ltac:(lia)); discriminate].
+      destruct (H0 eq_refl) as [_ Hd]. cbn [app repeat] in *. rewrite app_nil_r in Hr.
+      exists w'. unfold bwrite in Hr. rewrite Hr. subst d'.
+      rewrite Nat.add_0_r in Hij. rewrite Hij. reflexivity.
+  Qed.
+
+  Lemma write_count :
+    forall (D : Type) (dw : D -> bytes -> D * bool) (w w' : wstate) (d d' : D) (p : bytes) (n : nat),
+      w_write cs seal D dw w d p = Ok (w', d', Some n) -> n = length p.
+  Proof using Type.
+    intros D dw w w' d d' p n H. unfold w_write in H.
+    destruct (w_st w); try discriminate.
+    destruct p as [|x p0]; [inversion H; reflexivity|].
+    destruct (w_loop cs seal D dw (S (length (x :: p0))) w d (x :: p0)) as [[[w1 d1] ok]| |];
+      cbn [bind] in H; try discriminate.
+    destruct ok; inversion H; reflexivity.
+  Qed.
+
+  Lemma write_holdback :
+    forall (ws : list bytes) (w : wstate) (d : bytes),
+      (N.of_nat (length (concat ws)) < ctr_limit)%N ->
+      w_writes cs seal bytes (fun d p => (d ++ p, true)) w_init [] ws = Ok (w, d, true) ->
+      exists n,
+        length (w_buf w) <= cs /\
+        w_buf w = skipn (n * cs) (concat ws) /\
+        length (concat ws) = n * cs + length (w_buf w) /\
+        d = seal_full cs seal n 0 (concat ws) /\
+        w_ctr w = N.of_nat n.
+  Proof using cs_pos.
+    intros ws w d Hlim H.
+    assert (HO : WOpenSt bytes (fun d => d) (fun _ => true) [] ([] ++ concat ws) w d).
+    { apply (w_writes_spec bytes bwrite (fun d => d) (fun _ => true) bwrite_ok bwrite_fail []
+               ws w_init [] [] w d);
+        [apply (w_init_open bytes bwrite (fun d => d) (fun _ => true) [] []); reflexivity|exact Hlim|exact H]. }
+    destruct HO as [(_ & _ & n & H1 & H2 & H3 & H4 & H5) _]. cbn [app] in *.
+    exists n. repeat split; assumption.
+  Qed.
+
+  (** ** Destinations with fault plans *)
+
+  Definition sgood (k : sink) : bool := Nat.eqb (k_fails k) 0.
+
+  Lemma sink_write_ok : forall k p k',
+    sink_write k p = (k', true) -> sgood k = true -> sgood k' = true /\ k_acc k' = k_acc k ++ p.
+  Proof using Type.
+    intros k p k' H Hg. unfold sink_write in H.
+    destruct (nth (k_calls k) (k_plan k) false); inversion H; subst. split; [exact Hg|reflexivity].
+  Qed.
+
+  Lemma sink_write_fail : forall k p k', sink_write k p = (k', false) -> sgood k' = false.
+  Proof using Type.
+    intros k p k' H. unfold sink_write in H.
+    destruct (nth (k_calls k) (k_plan k) false); inversion H; subst. reflexivity.
+  Qed.
+
+  Lemma sink_run : forall (ws : list bytes) (plan : list bool),
+    (N.of_nat (length (concat ws)) < ctr_limit)%N ->
+    exists w k i j,
+      w_run cs seal sink sink_write w_init (empty_sink plan) ws []
+        = Ok (w, k, repeat true i ++ repeat false j) /\
+      i + j = S (length ws) /\
+      (j = 0 -> k_fails k = 0 /\ k_acc k = encrypt_spec cs seal (concat ws)) /\
+      (0 < j -> k_fails k <> 0).
+  Proof using cs_pos.
+    intros ws plan Hlim.
+    destruct (w_run_spec sink sink_write k_acc sgood sink_write_ok sink_write_fail []
+                ws w_init (empty_sink plan) [] [])
+      as (w' & k' & i & j & Hr & Hij & H0 & H1).
+    - apply (w_init_open sink sink_write k_acc sgood [] (empty_sink plan)); reflexivity.
+    - exact Hlim.
+    - exists w', k', i, j. cbn [app] in *. split; [exact Hr|]. split; [exact Hij|]. split.
+      + intro Hj. destruct (H0 Hj) as [A B]. unfold sgood in A. apply Nat.eqb_eq in A. now split.
+      + intro Hj. specialize (H1 Hj). unfold sgood in H1. now apply Nat.eqb_neq in H1.
+  Qed.
+
+  Lemma write_faults_surface :
+    forall (ws : list bytes) (plan : list bool) (w : wstate) (k : sink) (oks : list bool),
+      (N.of_nat (length (concat ws)) < ctr_limit)%N ->
+      w_run cs seal sink sink_write w_init (empty_sink plan) ws [] = Ok (w, k, oks) ->
+      Forall (fun b => b = true) oks ->
+      k_fails k = 0 /\ k_acc k = encrypt_spec cs seal (concat ws).
+  Proof using cs_pos.
+    intros ws plan w k oks Hlim Hrun Hall.
+    destruct (sink_run ws plan Hlim) as (w' & k' & i & j & Hr & Hij & H0 & H1).
+    rewrite Hr in Hrun. inversion Hrun; subst; clear Hrun.
+    apply H0. destruct j as [|j]; [reflexivity|].
+    apply Forall_app in Hall. destruct Hall as [_ Hf]. cbn [repeat] in Hf.
+    inversion Hf; discriminate.
+  Qed.
+
+  Lemma write_failed_sticky :
+    forall (ws : list bytes) (plan : list bool) (w : wstate) (k : sink) (oks : list bool),
+      (N.of_nat (length (concat ws)) < ctr_limit)%N ->
+      w_run cs seal sink sink_write w_init (empty_sink plan) ws [] = Ok (w, k, oks) ->
+      length oks = S (length ws) /\
+      (k_fails k > 0 -> exists i, nth i oks true = false) /\
+      (forall i j, i <= j -> j < length oks -> nth i oks true = false -> nth j oks true = false).
+  Proof using cs_pos.
+    intros ws plan w k oks Hlim Hrun.
+    destruct (sink_run ws plan Hlim) as (w' & k' & i & j & Hr & Hij & H0 & H1).
+    rewrite Hr in Hrun. inversion Hrun; subst; clear Hrun.
+    rewrite app_length, !repeat_length. split; [exact Hij|]. split.
+    - intro Hk. exists i. rewrite app_nth2 by (rewrite repeat_length; lia).
+      rewrite repeat_length, Nat.sub_diag.
+      destruct j as [|j]; [destruct (H0 eq_refl); lia|reflexivity].
+    - intros a b Hab Hb Ha.
+      destruct (Nat.lt_ge_cases a i) as [Hai|Hai].
+      + rewrite app_nth1 in Ha by (rewrite repeat_length; lia).
+        rewrite nth_repeat_lt in Ha by lia. discriminate.
+      + rewrite app_nth2 by (rewrite repeat_length; lia).
+        rewrite repeat_length. apply nth_repeat_lt. lia.
+  Qed.
+
+  Lemma write_total :
+    forall (ws : list bytes) (plan : list bool),
+      (N.of_nat (length (concat ws)) < ctr_limit)%N ->
+      exists w k oks, w_run cs seal sink sink_write w_init (empty_sink plan) ws [] = Ok (w, k, oks).
+  Proof using cs_pos.
+    intros ws plan Hlim.
+    destruct (sink_run ws plan Hlim) as (w' & k' & i & j & Hr & _).
+    exists w', k', (repeat true i ++ repeat false j). exact Hr.
+  Qed.
+End WriterFacts.
+
+(** * stream.Reader *)
+
+Definition probe_out (fc : errclass) (b : bytes) (s : status) : outcome :=
+  match b, s with
+  | _ :: _, _ => Failed ETrailing
+  | [], SOk => Failed ETrailing
+  | [], SFail => Failed fc
+  | [], SEof => CleanEOF
+  end.
+
+(** The end-of-file probe on a well-formed source. *)
+Lemma probe_spec : forall s,
+  wf_src s ->
+  exists b st s',
+    src_read 1 s = (b, st, s') /\
+    probe_out (s_fclass s) b st =
+      match s_fault s with
+      | None => match s_data s with [] => CleanEOF | _ => Failed ETrailing end
+      | Some 0 => Failed (s_fclass s)
+      | Some _ => Failed ETrailing
+      end.
+Proof.
+  intros s Hwf.
+  destruct (src_read_spec 1 s Hwf ltac:(lia)) as (m & ps & st & Hr & Hm1 & Hm2 & Hcase).
+  eexists _, st, _. split; [exact Hr|].
+  destruct Hcase as [(Hf & -> & ->) | [(Hf & Hd & -> & ->) | (Hmpos & Hst)]].
+  - rewrite Hf. reflexivity.
+  - rewrite Hf, Hd. reflexivity.
+  - assert (m = 1) by lia. subst m. unfold avail, wf_src in *.
+    destruct (s_data s) as [|y r] eqn:Ed.
+    + destruct (s_fault s); cbn [length] in *; lia.
+    + cbn [firstn probe_out]. destruct (s_fault s) as [[|k]|]; [lia|reflexivity|reflexivity].
+Qed.
+
+Section ReaderBasics.
+  Variable cs : nat.
+  Variable open_ : bytes -> bytes -> option bytes.
+
+  Lemma ecs_pos : 0 < ecs cs.
+  Proof. unfold ecs, overhead; lia. Qed.
+
+  Lemma reader_sticky :
+    forall (cap cap' : nat) (st st' : rstate) (b : bytes) (e : outcome),
+      r_read cs open_ cap st = Ok (b, Some e, st') ->
+      r_read cs open_ cap' st' = Ok ([], Some e, st').
+  Proof.
+    intros cap cap' st st' b e H. unfold r_read in H.
+    destruct (r_unread st) as [|x u] eqn:Eu; [|inversion H].
+    destruct (r_err st) as [e0|] eqn:Ee.
+    - inversion H; subst. unfold r_read. rewrite Eu, Ee. reflexivity.
+    - destruct cap as [|cap]; [inversion H|].
+      destruct (r_read_chunk cs open_ st) as [n|o stc|p last stc]; [discriminate| |].
+      + inversion H; subst. reflexivity.
+      + destruct last.
+        * destruct (src_read 1 (r_src stc)) as [[b0 s0] src']. inversion H.
+        * inversion H.
+  Qed.
+
+  Lemma r_read_chunk_src : forall st c rf s1,
+    read_full (ecs cs) (r_src st) = (c, rf, s1) ->
+    match r_read_chunk cs open_ st with
+    | CPanic _ => True
+    | CErr _ st' => r_src st' = s1
+    | COk _ _ st' => r_src st' = s1
+    end.
+  Proof.
+    intros st c rf s1 H. unfold r_read_chunk. rewrite H.
+    destruct rf.
+    - destruct (try_open open_ (r_ctr st) false c) as [[p|] a].
+      + destruct (N.eqb (r_ctr st + 1) ctr_limit); [exact I|reflexivity].
+      + destruct (try_open open_ (r_ctr st) true c) as [[p|] a'].
+        * destruct (N.eqb (r_ctr st + 1) ctr_limit); [exact I|reflexivity].
+        * reflexivity.
+    - reflexivity.
+    - destruct (negb (N.eqb (r_ctr st) 0) && Nat.eqb (length c) overhead); [reflexivity|].
+      destruct (try_open open_ (r_ctr st) true c) as [[p|] a].
+      + destruct (N.eqb (r_ctr st + 1) ctr_limit); [exact I|reflexivity].
+      + reflexivity.
+    - reflexivity.
+  Qed.
+
+  Lemma read_ahead :
+    forall (cap : nat) (st st' : rstate) (b : bytes) (e : option outcome),
+      r_read cs open_ cap st = Ok (b, e, st') ->
+      length (s_data (r_src st)) - length (s_data (r_src st')) <= ecs cs + 1.
+  Proof.
+    intros cap st st' b e H. unfold r_read in H.
+    destruct (r_unread st) as [|x u] eqn:Eu; [|inversion H; subst; cbn [r_src]; lia].
+    destruct (r_err st) as [e0|] eqn:Ee; [inversion H; subst; lia|].
+    destruct cap as [|cap]; [inversion H; subst; lia|].
+    destruct (read_full (ecs cs) (r_src st)) as [[c rf] s1] eqn:Erf.
+    pose proof (r_read_chunk_src st c rf s1 Erf) as Hs.
+    apply read_full_conserve in Erf.
+    destruct (r_read_chunk cs open_ st) as [n|o stc|p last stc]; [discriminate| |].
+    - inversion H; subst. cbn [r_src]. lia.
+    - destruct last.
+      + destruct (src_read 1 (r_src stc)) as [[b0 s0] src'] eqn:Ep.
+        apply src_read_conserve in Ep. inversion H; subst. cbn [r_src]. lia.
+      + inversion H; subst. cbn [r_src]. lia.
+  Qed.
+
+  (** ** One step of the driver *)
+
+  Definition cap_of (caps : list nat) (dflt : nat) : nat :=
+    Nat.max 1 (match caps with c :: _ => c | [] => dflt end).
+  Definition caps_tl (caps : list nat) : list nat :=
+    match caps with _ :: t => t | [] => [] end.
+
+  Lemma cap_of_pos : forall caps dflt, 0 < cap_of caps dflt.
+  Proof. intros; unfold cap_of; lia. Qed.
+
+  Lemma r_drain_step_unread : forall F caps dflt st acc x u,
+    r_unread st = x :: u ->
+    r_drain cs open_ (S F) caps dflt st acc =
+    r_drain cs open_ F (caps_tl caps) dflt
+      (mkR (skipn (cap_of caps dflt) (x :: u)) (r_err st) (r_ctr st) (r_src st) (r_log st))
+      (acc ++ firstn (cap_of caps dflt) (x :: u)).
+  Proof.
+    intros F caps dflt st acc x u H. cbn [r_drain]. unfold r_read. rewrite H. reflexivity.
+  Qed.
+
+  Lemma r_drain_step_err : forall F caps dflt st acc e,
+    r_unread st = [] -> r_err st = Some e ->
+    r_drain cs open_ (S F) caps dflt st acc = Ok (acc ++ [], e, st).
+  Proof.
+    intros F caps dflt st acc e H1 H2. cbn [r_drain]. unfold r_read. rewrite H1, H2. reflexivity.
+  Qed.
+
+  Lemma r_drain_step_chunk : forall F caps dflt st acc,
+    r_unread st = [] -> r_err st = None ->
+    r_drain cs open_ (S F) caps dflt st acc =
+    match r_read_chunk cs open_ st with
+    | CPanic n => Panic n
+    | CErr e st' => Ok (acc ++ [], e, mkR [] (Some e) (r_ctr st') (r_src st') (r_log st'))
+    | COk p last st' =>
+        if last then
+          let '(b, s, src') := src_read 1 (r_src st') in
+          r_drain cs open_ F (caps_tl caps) dflt
+            (mkR (skipn (cap_of caps dflt) p)
+                 (Some (probe_out (s_fclass (r_src st')) b s)) (r_ctr st') src' (r_log st'))
+            (acc ++ firstn (cap_of caps dflt) p)
+        else
+          r_drain cs open_ F (caps_tl caps) dflt
+            (mkR (skipn (cap_of caps dflt) p) None (r_ctr st') (r_src st') (r_log st'))
+            (acc ++ firstn (cap_of caps dflt) p)
+    end.
+  Proof.
+    intros F caps dflt st acc H1 H2. cbn [r_drain]. unfold r_read. rewrite H1, H2.
+    fold (cap_of caps dflt). fold (caps_tl caps).
+    destruct (cap_of caps dflt) as [|c] eqn:Ec; [pose proof (cap_of_pos caps dflt); lia|].
+    destruct (r_read_chunk cs open_ st) as [n|o stc|p last stc]; [reflexivity|reflexivity|].
+    destruct last; [|reflexivity].
+    destruct (src_read 1 (r_src stc)) as [[b s] src']. reflexivity.
+  Qed.
+
+  (** Handing out the buffered plaintext takes at most one call per byte. *)
+  Lemma drain_unread : forall n u, length u <= n ->
+    forall caps dflt st acc, r_unread st = u ->
+    exists k caps', k <= length u /\
+      forall F, r_drain cs open_ (k + F) caps dflt st acc =
+                r_drain cs open_ F caps' dflt
+                  (mkR [] (r_err st) (r_ctr st) (r_src st) (r_log st)) (acc ++ u).
+  Proof.
+    intro n; induction n as [|n IH]; intros u Hu caps dflt st acc Eu.
+    - destruct u; [|cbn [length] in Hu; lia].
+      exists 0, caps. split; [lia|]. intro F. cbn [Nat.add]. rewrite app_nil_r.
+      destruct st as [un er ct sr lg]; cbn [r_unread r_err r_ctr r_src r_log] in *; subst; reflexivity.
+    - destruct u as [|x u'].
+      { exists 0, caps. split; [lia|]. intro F. cbn [Nat.add]. rewrite app_nil_r.
+        destruct st as [un er ct sr lg]; cbn [r_unread r_err r_ctr r_src r_log] in *; subst; reflexivity. }
+      pose proof (cap_of_pos caps dflt) as Hcap.
+      set (st1 := mkR (skipn (cap_of caps dflt) (x :: u')) (r_err st) (r_ctr st) (r_src st) (r_log st)).
+      destruct (IH (skipn (cap_of caps dflt) (x :: u'))
+                  ltac:(rewrite skipn_length; cbn [length] in *; lia)
+                  (caps_tl caps) dflt st1 (acc ++ firstn (cap_of caps dflt) (x :: u')) eq_refl)
+        as (k & caps' & Hk & HF).
+      exists (S k), caps'. split.
+      + rewrite skipn_length in Hk. cbn [length] in *. lia.
+      + intro F. cbn [Nat.add]. rewrite (r_drain_step_unread _ _ _ _ _ x u' Eu).
+        fold st1. rewrite HF. unfold st1; cbn [r_err r_ctr r_src r_log].
+        rewrite <- app_assoc, firstn_skipn. reflexivity.
+  Qed.
+
+  Lemma drain_finish : forall caps dflt st acc e F,
+    r_err st = Some e -> length (r_unread st) < F ->
+    r_drain cs open_ F caps dflt st acc =
+    Ok (acc ++ r_unread st, e, mkR [] (Some e) (r_ctr st) (r_src st) (r_log st)).
+  Proof.
+    intros caps dflt st acc e F He HF.
+    destruct (drain_unread (length (r_unread st)) (r_unread st) (le_n _) caps dflt st acc eq_refl)
+      as (k & caps' & Hk & Hrun).
+    replace F with (k + S (F - k - 1)) by lia. rewrite Hrun.
+    rewrite (r_drain_step_err _ _ _ _ _ e); [|reflexivity|exact He].
+    rewrite He, app_nil_r. reflexivity.
+  Qed.
+
+  Lemma try_open_some : forall ctr last c p a,
+    try_open open_ ctr last c = (Some p, a) -> open_ (nonce_of ctr last) c = Some p.
+  Proof. intros ctr last c p a H. unfold try_open in H. inversion H. reflexivity. Qed.
+End ReaderBasics.
